@@ -35,10 +35,11 @@ const (
 	stStaleDB         // the node is stopped, its certificate database is replaced by the last copy, and it restarts
 	stForget          // the Agglayer loses its most recent certificate(s); the node restarts
 	stDiverge         // the Agglayer's most recent certificate gets a different id; the node restarts
+	stReadFault       // epoch or status tick during which the k-th storage statement of any kind (also plain reads) fails
 	nSteps
 )
 
-var stepNames = []string{"L2events", "L2empty", "epoch", "status", "advance", "inError", "failBefore", "failAfter", "L1advance", "settle", "restart", "crashAfterSubmit", "crashBeforeSubmit", "crashNextCall", "loseDB", "epoch+storageFault", "snapshotDB", "staleDB", "agglayerForgets", "agglayerDiverges"}
+var stepNames = []string{"L2events", "L2empty", "epoch", "status", "advance", "inError", "failBefore", "failAfter", "L1advance", "settle", "restart", "crashAfterSubmit", "crashBeforeSubmit", "crashNextCall", "loseDB", "epoch+storageFault", "snapshotDB", "staleDB", "agglayerForgets", "agglayerDiverges", "tick+readFault"}
 
 // asRun is one execution of the aggsender world
 type asRun struct {
@@ -62,6 +63,7 @@ type asRun struct {
 	crashes   int
 	nSettled  int
 	restarts  int
+	storageFaults int // storage faults injected during ticks (stReadFault)
 	snapshot  string // directory holding the last copy of the certificate database
 	mustRefuse string // non-empty: a contradiction was constructed, the node must refuse to proceed
 	tampered   bool   // the Agglayer's records were altered (forget / diverge): the scenario ends with the restart
@@ -133,9 +135,14 @@ func (a *asRun) collect() {
 	a.reported = len(a.m.checks)
 	a.m.mu.Unlock()
 	for _, c := range checks {
-		if a.props["C13"] && a.restarts > 0 && c.Prop == "C02" {
-			// the next certificate after a restart has the correct height, previous exit root and first block
-			a.violate("C13:after-restart:"+strings.TrimPrefix(c.Sig, "C02:"), c.What)
+		if a.props["C13"] && (a.restarts > 0 || a.storageFaults > 0) && c.Prop == "C02" {
+			// the next certificate after a restart / a storage fault has the correct height, previous
+			// exit root and first block
+			tag := "after-restart"
+			if a.restarts == 0 {
+				tag = "after-storage-fault"
+			}
+			a.violate("C13:"+tag+":"+strings.TrimPrefix(c.Sig, "C02:"), c.What)
 			continue
 		}
 		if !a.props[c.Prop] {
@@ -181,6 +188,51 @@ func (a *asRun) step(s int) string {
 			a.r.Inconclusive("world: " + err.Error())
 			a.dead = true
 		}
+	case stReadFault:
+		if a.node == nil || a.refused || a.node.fault == nil {
+			desc += "(n/a)"
+			break
+		}
+		func() {
+			defer func() {
+				if p := recover(); p != nil {
+					cs, ok := p.(crashSentinel)
+					if !ok {
+						panic(p)
+					}
+					desc += "(DIES at " + cs.point + ")"
+					a.crashes++
+					a.restart(false)
+				}
+			}()
+			f := a.node.fault
+			f.OnlyInTx(false)
+			f.Arm(1+g.Intn(6), true)
+			if g.Intn(3) == 0 {
+				a.node.statusStep()
+			} else {
+				a.node.epochStep()
+			}
+			n, fired, lg := f.Disarm()
+			f.OnlyInTx(true)
+			if fired {
+				a.storageFaults++
+				desc += fmt.Sprintf("(FAILS statement %d: %s)", n, clip(lg[len(lg)-1], 70))
+				a.cov["read-fault/"+firstWords(lg[len(lg)-1], 3)] = true
+				a.m.mu.Lock()
+				sentNow := a.m.sends > sendsBefore
+				a.m.mu.Unlock()
+				if sentNow {
+					// the fault hit the save of a certificate that had just been submitted: the node
+					// reported "error saving certificate"; like after stSaveFault the operator restarts it
+					a.trace = append(a.trace, desc)
+					desc = "restart(after storage fault)"
+					a.restart(false)
+				}
+			} else {
+				desc += "(no fault)"
+			}
+		}()
 	case stEpoch, stStatus, stSaveFault:
 		if a.node == nil || a.refused {
 			desc += "(node refuses)"
